@@ -13,8 +13,10 @@
    specification side); `prod_decode` -- the model of TTYEventDecoder: the tokeniser
    specification `munch` of C03 over the regenerated production automaton (Gen/ProdDFA.v) with
    the payload decoders of Decoder/EvModel.v and the key names of Gen/C04Keys.v;
-   `prod_wf r` = `wf r` and the automaton is in a terminal accepting state after `print r`
-   (self-delimiting).  Statements only; proofs in Decoder/C04Main.v and the files it imports.
+   `prod_wf r` = `wf r` at the regenerated name tables: decided on the specification side only
+   (parameter bounds; for table keys: in the table and not one of the six bare ESC-prefixes);
+   that the automaton is in a terminal accepting state after `print r` (self-delimiting) is a
+   THEOREM (C04_self_delimiting), not a hypothesis.  Statements only; proofs in Decoder/C04Main.v and the files it imports.
 
    `proved_family r` is true for every report except `RSgr`: an SGR sequence denotes a face
    modification, which is characterised by its meaning (C04_sgr_event, via the reference SGR
@@ -23,7 +25,7 @@
 From Coq Require Import List NArith Bool.
 From SNT Require Import Base.Outcome Automata.DfaData Automata.Tokenizer.
 From SNT Require Import Render.FaceModel Decoder.SgrRef.
-From SNT Require Import Decoder.EvModel Decoder.Printer Decoder.EvProd Decoder.EvProofs Decoder.C04Main.
+From SNT Require Import Decoder.EvModel Decoder.Printer Decoder.EvProd Decoder.EvProofs Decoder.EvXterm Decoder.C04Main.
 From SNT Require Import Gen.ProdDFA Gen.C04Keys.
 Import ListNotations.
 Local Open Scope N_scope.
@@ -55,16 +57,27 @@ Proof. exact chunking. Qed.
 (* 4. the literal key table (re-checked on the regenerated automaton): every self-delimiting
    sequence of the table decodes to the key the table names *)
 Theorem C04_key_table : forall (w rest : list N),
-  lit_lookup prod_key_table w <> None -> self_delimiting w = true ->
+  lit_lookup prod_key_table w <> None -> bare_prefix w = false ->
   prod_decode (w ++ rest) = (prod_denote (RLit w) :: fst (prod_decode rest), snd (prod_decode rest)).
 Proof. intros w rest Hl Hs. exact (decode_single _ _ rest (single_literal w Hl Hs)). Qed.
 
 (* 4b. the table names the xterm PC-style / VT220-style sequences as the protocol documents do:
-   cursor / editing / function keys with every modifier mask, Alt+letter, Alt+digit, Ctrl+letter *)
-Theorem C04_xterm_keys : forall (k : kname) (mods : N) (alt_form : bool) (rest : list N),
+   cursor / editing / function keys with the modifier masks 0..7 (shift, alt, ctrl), Alt+letter,
+   Alt+digit, Ctrl+letter.  `_upto_mask7`: the documents define every mask below 256 (xterm meta,
+   kitty super / hyper / meta / caps_lock / num_lock) and `wf` admits them, but the library's table
+   stops at 7 -- known finding C04-key-mask, witness C04_key_mask8_refuted *)
+Theorem C04_xterm_keys_upto_mask7 : forall (k : kname) (mods : N) (alt_form : bool) (rest : list N),
+  mods < 8 ->
   wf decmode_all prod_key_table (RXterm k mods alt_form) = true ->
   prod_decode (print (RXterm k mods alt_form) ++ rest) = (EKey k mods :: fst (prod_decode rest), snd (prod_decode rest)).
 Proof. exact xterm_keys_decode. Qed.
+
+Theorem C04_key_mask8_refuted :
+  wf decmode_all prod_key_table (RXterm KUp 8 false) = true
+  /\ print (RXterm KUp 8 false) = [27; 91; 49; 59; 57; 65]
+  /\ fst (prod_decode (print (RXterm KUp 8 false)))
+     = [EKey (KChar 91) 2; EKey (KChar 49) 0; EKey (KChar 59) 0; EKey (KChar 57) 0; EKey (KChar 65) 0].
+Proof. exact xterm_mask8_refuted. Qed.
 
 (* 4c. an SGR sequence received as an event: the modification's meaning is the reference SGR
    machine of C06 (the DECRPSS face report is part of C04_single_partial) *)
@@ -73,6 +86,11 @@ Theorem C04_sgr_event : forall (p rest : list N),
   exists m, prod_decode (print (RSgr p) ++ rest) = (EFaceModify m :: fst (prod_decode rest), snd (prod_decode rest))
             /\ forall r, SgrRef.rapply m r = SgrRef.ref_sgr p r.
 Proof. exact sgr_event_decode. Qed.
+
+(* 4d. every well-formed report is self-delimiting *)
+Theorem C04_self_delimiting : forall r : report,
+  proved_family r = true -> prod_wf r = true -> self_delimiting (print r) = true.
+Proof. exact wf_self_delimiting. Qed.
 
 (* 5. xterm / fixterms modifier convention over the whole table: CSI n ; m ~ and CSI 1 ; m X name
    the key of the unmodified sequence with modifier mask m - 1 *)
